@@ -102,7 +102,8 @@ def verdicts(lex: Module, udl_start: set, max_len: int = 4, qual: str = "LexerTo
 
                 def extern(call: ast.Call, run: Run, _c=counter) -> Any:
                     f = norm(call.func)
-                    if f.endswith("current_location"):
+                    if f.endswith("current_location") or f == "Location":
+                        # (an inlined current_location(): what the location holds is R10.2's question, here a token gets one)
                         _c[0] += 1
                         return f"loc:{run.pos}"
                     raise Unsupported(f"call {norm(call)[:60]}")
